@@ -17,7 +17,9 @@ PASS_CHECKS = {"rename_locals_base_score": ["C01", "C06"], "extract_helper_explo
                "v2_temporal_isempty_demorgan": ["C08", "C04"], "v2_temporal_score_inline": ["C04"], "v2_decode_compare_first": ["C08"], "names_getname_restructure": ["C18"],
                "options_index_loop": ["C17"], "report_base_locals": ["C17"], "severity_reordered_cases": ["C06"],
                "receiver_rename_score": ["C01"], "param_rename_decodeone": ["C07"], "decode_index_loop": ["C07", "C09"], "score_err_inline": ["C01", "C12"], "unused_helper_added": ["C15"],
-               "v2_env_decode_range_index": ["C08"], "env_score_single_return": ["C03", "C13"]}
+               "v2_env_decode_range_index": ["C08"], "env_score_single_return": ["C03", "C13"],
+               "v2_score_min_if": ["C04", "C05"], "v3_base_score_min_if": ["C01", "C06"], "v2_base_encode_builder": ["C08", "C10"], "mpr_value_flat": ["C03", "C20"],
+               "decode_errors_is": ["C07", "C11"], "v3_env_encode_sprintf_s": ["C10"]}
 def run(kind, flt):
     results = []
     if kind in ("pass", "fail"):
